@@ -361,6 +361,24 @@ func c01Run(c c01Case) error {
 			return fmt.Errorf("n=%d: alternative %d is selected by at least %d raw words (e.g. %#x), but an unbiased draw allows at most floor(2^32/n) = %d", c.N, res, len(same), acc, q)
 		}
 	}
+	// every continuation of the stream after rejected values: a long run of
+	// rejected words in front of an accepted one changes nothing but the
+	// number of words consumed (selection terminates with probability one,
+	// there is no cap on redraws)
+	if rej, ok := findRejected(c.N, c.Tail); ok {
+		for _, k := range []int{1, 2, 15, 16, 17, 18, 33, 64, 65, 130, 257} {
+			ws := make([]uint32, 0, k+1)
+			for i := 0; i < k; i++ {
+				ws = append(ws, rej[i%len(rej)])
+			}
+			ws = append(ws, acc)
+			r5, s5 := drawOnce(c.N, ws, c.Tail^0x777, k+66)
+			if s5.Panic != nil || s5.CapHit || s5.Tape.Pos != 4*(k+1) || r5 != res {
+				return fmt.Errorf("n=%d: %d rejected words (e.g. %#x) followed by the accepted word %#x gave %d after %d bytes (panic=%v); a fresh stream gives %d, and every rejected word must be redrawn (want %d bytes)", c.N, k, rej[0], acc, r5, s5.Tape.Pos, s5.Panic, res, 4*(k+1))
+			}
+		}
+		ev.Class("long_rejection_runs_checked")
+	}
 	// rejected once => rejected always; the stream after a rejection is fresh
 	for i := 0; i < k-1 && i < 4; i++ {
 		rej := wordAt(s.Tape, i)
@@ -370,6 +388,30 @@ func c01Run(c c01Case) error {
 		}
 	}
 	return nil
+}
+
+// findRejected looks, by probing the real sampler, for raw words it rejects
+// for bound n (none exist for powers of two). No rejection rule is assumed:
+// the candidates are merely places where rejection regions usually sit.
+func findRejected(n uint32, key uint64) ([]uint32, bool) {
+	q := (uint64(1) << 32) / uint64(n)
+	cands := []uint32{1<<32 - 1, 1<<32 - 2, uint32(q * uint64(n)), uint32(q*uint64(n) + 1), uint32(uint64(1)<<32 - uint64(n)/2 - 1), 0, 1, n - 1, n}
+	x := key
+	for i := 0; i < 8; i++ {
+		x = ev.Mix64(x, uint64(i))
+		cands = append(cands, uint32(x))
+	}
+	var out []uint32
+	for _, w := range cands {
+		_, consumed, ok := enum.Probe(n, w, 4*66)
+		if ok && consumed > 4 {
+			out = append(out, w)
+			if len(out) == 3 {
+				break
+			}
+		}
+	}
+	return out, len(out) > 0
 }
 
 func c01Gen(t *rapid.T) c01Case {
